@@ -2125,7 +2125,19 @@ func (m *metadataAPI) checkShrinkISRPreconditions(op *proto.RaftLog) error {
 		// The leader is always in the ISR.
 		return fmt.Errorf("cannot remove leader %s from the ISR", req.Leader)
 	}
-	return m.checkLeaderGeneration(req.Stream, req.Partition, req.Leader, req.LeaderEpoch)
+	if err := m.checkLeaderGeneration(req.Stream, req.Partition, req.Leader, req.LeaderEpoch); err != nil {
+		return err
+	}
+	// Only a replica can leave the ISR. Applying the operation fails otherwise.
+	partition := m.GetPartition(req.Stream, req.Partition)
+	if partition == nil {
+		return ErrPartitionNotFound
+	}
+	if !partition.inReplicas(req.ReplicaToRemove) {
+		return fmt.Errorf("%s is not a replica of partition [stream=%s, partition=%d]",
+			req.ReplicaToRemove, req.Stream, req.Partition)
+	}
+	return nil
 }
 
 // checkExpandISRPreconditions checks if the partition whose ISR is being
